@@ -567,6 +567,7 @@ class DecimalRange(Range):
             while not end_reached:
                 lower = None
                 upper = None
+                range_item = None
                 ellipsis_found = False
                 after_hyphen = False
                 next_token = next(tokens)
